@@ -113,11 +113,41 @@ var strPool = []strEx{
 	{`"hello world"`, "hello world", []string{`"^hello"`, `"o w"`}},
 	{`"t\tb"`, "t\tb", []string{`"^t\\sb$"`}},
 	{`"b\\s"`, `b\s`, []string{`"^b.s$"`}},
+	// wide pool (see gen.wide): every character that has a two-character escape in JSON (\" \\ \/ \b \f \n \r \t) and
+	// \uXXXX spellings (lower / upper hex, a surrogate pair) occur in schema strings that are compared by const / enum /
+	// regex / lengths
+	{`"l\nf"`, "l\nf", []string{`"^l\\sf$"`, `"^l[^a]f$"`}},
+	{`"c\rr"`, "c\rr", []string{`"^c.r$"`, `"^c\\sr$"`}},
+	{`"b\bf\f"`, "b\bf\f", []string{`"^b.f.$"`, `"^.{4}$"`}},
+	{`"\u00e9t\u00E9"`, "été", []string{`"^.t.$"`}},
+	{`"\ud83d\uDE00!"`, "😀!", []string{`"^.!$"`}},
+	{`"\\\"\/"`, `\"/`, []string{`"^.{3}$"`, `"/$"`}},
 }
+
+const nNarrowStr = 13
 
 var keyPool = []struct{ text, decoded string }{
 	{`"a"`, "a"}, {`"b"`, "b"}, {`"c"`, "c"}, {`"id"`, "id"}, {`"é"`, "é"}, {`"k/1"`, "k/1"}, {`"k\/2"`, "k/2"},
 	{`"😀"`, "😀"}, {`"q\"t"`, `q"t`}, {`"kA"`, "kA"}, {`"name"`, "name"}, {`"x y"`, "x y"}, {`"éé"`, "éé"},
+	// wide pool
+	{`"l\nf"`, "l\nf"}, {`"t\tk"`, "t\tk"}, {`"b\\k"`, `b\k`}, {`"\u00e9k"`, "ék"}, {`"r\rb\bf\f"`, "r\rb\bf\f"},
+}
+
+const nNarrowKey = 13
+
+// strs / keys: the pools this generator draws from. GenSchemaText (used by other commands) keeps the narrow pools.
+func (g *gen) strs() []strEx {
+	if g.wide {
+		return strPool
+	}
+	return strPool[:nNarrowStr]
+}
+
+func (g *gen) nKeys() int {
+	if g.wide {
+		return len(keyPool)
+	}
+	return nNarrowKey
 }
 
 var notePool = []string{"a note", "note only", "identifier of the thing", "see docs/x.md", "1 - 2", "ключ", "(not a rule)", "it's"}
@@ -127,6 +157,11 @@ type gen struct {
 	defect   string // planted defect kind, "" = none
 	refsOK   bool   // the schema being generated may mention @t / @u
 	features map[string]bool
+	// wide: the full input space of c13-metamorphic (all escape characters in schema strings and keys, every
+	// additionalProperties mode, container-rooted added types more often, several additional members per document
+	// object). GenSchemaText leaves it off: its consumers (c14-len, loaderdiff) keep their input space.
+	wide     bool
+	docStats []string
 }
 
 func (g *gen) feat(s string) { g.features[s] = true }
@@ -245,13 +280,17 @@ func (g *gen) fltNode() *node {
 
 func (g *gen) strNode() *node {
 	r := g.r
-	ex := strPool[r.Intn(len(strPool))]
+	ex := g.strs()[r.Intn(len(g.strs()))]
 	n := &node{kind: "str", lit: ex.text, val: ex.decoded}
 	blen := len(ex.decoded)
 	switch k := r.Intn(12); {
 	case k <= 1:
 		items := []string{ex.text}
-		for _, c := range []string{`"x"`, `"a\/b"`, `"é"`, `"😀"`, "5", "null"} {
+		cands := []string{`"x"`, `"a\/b"`, `"é"`, `"😀"`, "5", "null"}
+		if g.wide {
+			cands = append(cands, `"l\nf"`, `"q\"t"`, `"\u00E9t\u00e9"`, `"b\\s"`)
+		}
+		for _, c := range cands {
 			if g.chance(0.4) {
 				dup := false
 				for _, it := range items {
@@ -525,7 +564,7 @@ func (g *gen) compactNode(depth int) *node {
 			return n
 		case 1:
 			n := &node{kind: "obj"}
-			perm := r.Perm(len(keyPool))
+			perm := r.Perm(g.nKeys())
 			for i := r.Intn(3); i > 0; i-- {
 				n.keys = append(n.keys, keyPool[perm[i]].text)
 				n.dkeys = append(n.dkeys, keyPool[perm[i]].decoded)
@@ -533,7 +572,7 @@ func (g *gen) compactNode(depth int) *node {
 			}
 			return n
 		case 2:
-			ex := strPool[r.Intn(len(strPool))]
+			ex := g.strs()[r.Intn(len(g.strs()))]
 			return &node{kind: "str", lit: ex.text, val: ex.decoded}
 		case 3:
 			v := r.Intn(20)
@@ -563,7 +602,7 @@ func (g *gen) genNode(depth int, inObj, allowRef bool) *node {
 	switch {
 	case k < 4: // object
 		n = &node{kind: "obj"}
-		perm := r.Perm(len(keyPool))
+		perm := r.Perm(g.nKeys())
 		cnt := r.Intn(5)
 		for i := 0; i < cnt; i++ {
 			n.keys = append(n.keys, keyPool[perm[i]].text)
@@ -574,6 +613,12 @@ func (g *gen) genNode(depth int, inObj, allowRef bool) *node {
 			ap := []string{"true", "false", `"any"`, `"string"`, `"integer"`, `"@t"`}
 			if !allowRef {
 				ap = ap[:5]
+			}
+			if g.wide { // every mode of the rule: no / any / each schema type / a user type
+				ap = append(ap, `"object"`, `"array"`, `"object"`, `"array"`, `"float"`, `"decimal"`, `"boolean"`, `"null"`, `"email"`, `"uri"`, `"uuid"`, `"date"`, `"datetime"`, `"enum"`, `"mixed"`)
+				if allowRef {
+					ap = append(ap, `"@t"`, `"@u"`, `"@t"`, `"@u"`)
+				}
 			}
 			n.addProps = ap[r.Intn(len(ap))]
 			n.rules = append(n.rules, rule{"additionalProperties", lit(n.addProps)})
@@ -764,9 +809,29 @@ func baseSpell() *spell {
 	return &spell{base: true, eols: []string{"\n"}, indent: "spaces", notes: "keep", r: rand.New(rand.NewSource(1))}
 }
 
-func variantSpell(r *rand.Rand) *spell {
+var eolStyles = [][]string{{"\n"}, {"\r\n"}, {"\r"}, {"\n", "\r\n", "\r"}, {"\r\n", "\n"}, {"\r", "\r\n"}, {"\n", "\r"}}
+
+func variantSpell(r *rand.Rand) *spell { return variantSpellForced(r, -1) }
+
+// variantSpellForced: layout >= 0 forces the COMBINATION line-end style x user comments (x, at random, the
+// annotation form and everything else): line-end style number layout % 7 of eolStyles for the whole file (LF, CRLF,
+// CR, the three mixed, ...), `#` comments at line ends and / or on lines of their own and / or ### blocks always
+// present, empty and one-character comments included. The rewrites are not only varied one at a time.
+func variantSpellForced(r *rand.Rand, layout int) *spell {
 	sp := &spell{r: r, eols: []string{"\n"}, indent: "spaces", notes: "keep"}
+	forced := map[string]bool{}
+	if layout >= 0 {
+		forced["comments"] = true
+		forced["eol"] = layout%len(eolStyles) != 0
+	}
 	on := func(name string, p float64) bool {
+		if f, ok := forced[name]; ok {
+			r.Float64()
+			if f {
+				sp.applied = append(sp.applied, name)
+			}
+			return f
+		}
 		if r.Float64() < p {
 			sp.applied = append(sp.applied, name)
 			return true
@@ -776,6 +841,9 @@ func variantSpell(r *rand.Rand) *spell {
 	for len(sp.applied) == 0 {
 		if on("eol", 0.5) {
 			sp.eols = [][]string{{"\r\n"}, {"\r"}, {"\n", "\r\n", "\r"}, {"\r\n", "\n"}}[r.Intn(4)]
+			if layout >= 0 {
+				sp.eols = eolStyles[layout%len(eolStyles)]
+			}
 		}
 		if on("indent", 0.5) {
 			sp.indent = []string{"none", "tabs", "mixed", "spaces4"}[r.Intn(4)]
@@ -786,6 +854,10 @@ func variantSpell(r *rand.Rand) *spell {
 				sp.cEnd = 0.5
 			}
 			sp.cEmpty = r.Intn(2) == 0
+			if layout >= 0 { // dense: a comment on (nearly) every line
+				sp.cEnd = []float64{0.8, 1}[r.Intn(2)]
+				sp.cEmpty = true
+			}
 		}
 		if on("multiline", 0.45) {
 			sp.multi = []float64{0.5, 1}[r.Intn(2)]
@@ -849,7 +921,7 @@ func (sp *spell) sps() string {
 	return ""
 }
 
-var commentTexts = []string{" comment", "x", " {min: 1}", " // {min: 1}", " \"a\": 1,", " ]", " }", " /* x */", " # # #", "\t tab", " é😀", " [", " @t | @u", "-"}
+var commentTexts = []string{" comment", "x", " {min: 1}", " // {min: 1}", " \"a\": 1,", " ]", " }", " /* x */", " # # #", "\t tab", " é😀", " [", " @t | @u", "-", " ", "xy", " a longer user comment, with \"quotes\", {braces} and // slashes"}
 
 // endComment: `# …` up to the end of the line ("" = none). The text never contains a line break.
 func (sp *spell) endComment() string {
@@ -1256,6 +1328,25 @@ func (g *gen) sample(n *node, types typeTable, fuel int) *dval {
 			d.keys = append(d.keys, n.dkeys[i])
 			d.kids = append(d.kids, g.sample(k, types, fuel))
 		}
+		if g.wide && n.addProps != "" {
+			// 0-4 additional members of mixed conformity under EVERY mode of the rule (also `false`: the verdict must
+			// not depend on where the refused member stands)
+			cnt := []int{0, 1, 2, 2, 3, 3, 4}[r.Intn(7)]
+			perm := r.Perm(len(extraKeys))
+			for i := 0; i < cnt; i++ {
+				d.keys = append(d.keys, extraKeys[perm[i]])
+				d.kids = append(d.kids, g.apValue(n.addProps, types, fuel))
+			}
+			g.docStats = append(g.docStats, fmt.Sprintf("doc_additional_members_%d", cnt), "doc_additional_mode_"+strings.Trim(n.addProps, `"`))
+			// the members the schema names and the additional ones are interleaved already in the base spelling
+			if r.Intn(2) == 0 {
+				r.Shuffle(len(d.keys), func(i, j int) {
+					d.keys[i], d.keys[j] = d.keys[j], d.keys[i]
+					d.kids[i], d.kids[j] = d.kids[j], d.kids[i]
+				})
+			}
+			return d
+		}
 		if n.addProps != "" && n.addProps != "false" && r.Intn(2) == 0 {
 			var v *dval
 			switch n.addProps {
@@ -1296,6 +1387,91 @@ func (g *gen) sample(n *node, types typeTable, fuel int) *dval {
 	return &dval{kind: 'l', lit: n.lit}
 }
 
+// extraKeys: keys of additional members (none of them is in keyPool); every escapable character occurs.
+var extraKeys = []string{"zz", "extra", "ü", "p/q", "n\nl", "😀😀", `w\v`, `d"q`, "tab\t", "", "Z"}
+
+// apValue returns the value of one additional member of an object whose additionalProperties rule is `mode`: in
+// half of the cases a value meant to conform to the mode, otherwise any value (which conforms for some modes and
+// violates others). Conformity is not computed: the oracle is the relation between spellings only.
+func (g *gen) apValue(mode string, types typeTable, fuel int) *dval {
+	r := g.r
+	str := func(xs ...string) *dval { return &dval{kind: 's', s: xs[r.Intn(len(xs))]} }
+	num := func(xs ...string) *dval { return &dval{kind: 'n', num: xs[r.Intn(len(xs))]} }
+	object := func() *dval {
+		d := &dval{kind: 'o'}
+		perm := r.Perm(g.nKeys())
+		for i := r.Intn(3); i > 0; i-- {
+			d.keys = append(d.keys, keyPool[perm[i]].decoded)
+			d.kids = append(d.kids, g.randDoc(0))
+		}
+		return d
+	}
+	array := func() *dval {
+		d := &dval{kind: 'a'}
+		for i := r.Intn(3); i > 0; i-- {
+			d.kids = append(d.kids, g.randDoc(1))
+		}
+		return d
+	}
+	if r.Intn(2) == 0 {
+		switch m := unq(mode); m {
+		case "string":
+			return str("extra/é", "l\nf", `q"t`, "")
+		case "integer":
+			return num("7", "-3", "0")
+		case "float", "decimal":
+			return num("1.5", "2.50", "-0.25")
+		case "boolean":
+			return &dval{kind: 'l', lit: []string{"true", "false"}[r.Intn(2)]}
+		case "null":
+			return dnull()
+		case "object":
+			return object()
+		case "array":
+			return array()
+		case "email":
+			return str("a@b.cc")
+		case "uri":
+			return str("http://x.org/a")
+		case "uuid":
+			return str("550e8400-e29b-41d4-a716-446655440000")
+		case "date":
+			return str("2020-01-02")
+		case "datetime":
+			return str("2020-01-02T03:04:05+00:00")
+		default:
+			if len(m) > 1 && m[0] == '@' {
+				if t, ok := types[m[1:]]; ok && fuel > 0 {
+					v := g.sample(t, types, fuel-1)
+					if r.Intn(3) == 0 { // nearly conforming
+						v = g.mutate(v)
+					}
+					return v
+				}
+			}
+		}
+	}
+	switch r.Intn(9) {
+	case 0:
+		return str("s", "a/b", "é\t")
+	case 1:
+		return num("1", "42")
+	case 2:
+		return num("1.5")
+	case 3:
+		return &dval{kind: 'l', lit: []string{"true", "false"}[r.Intn(2)]}
+	case 4:
+		return dnull()
+	case 5:
+		return &dval{kind: 'o'}
+	case 6:
+		return object()
+	case 7:
+		return &dval{kind: 'a'}
+	}
+	return array()
+}
+
 func (g *gen) randDoc(depth int) *dval {
 	r := g.r
 	k := r.Intn(8)
@@ -1308,7 +1484,7 @@ func (g *gen) randDoc(depth int) *dval {
 	case 1:
 		return &dval{kind: 'n', num: []string{"1.0", "2.50", "0.5", "-3.25"}[r.Intn(4)]}
 	case 2, 3:
-		return &dval{kind: 's', s: strPool[r.Intn(len(strPool))].decoded}
+		return &dval{kind: 's', s: g.strs()[r.Intn(len(g.strs()))].decoded}
 	case 4:
 		return &dval{kind: 'l', lit: []string{"true", "false"}[r.Intn(2)]}
 	case 5:
@@ -1321,7 +1497,7 @@ func (g *gen) randDoc(depth int) *dval {
 		return d
 	}
 	d := &dval{kind: 'o'}
-	perm := r.Perm(len(keyPool))
+	perm := r.Perm(g.nKeys())
 	for i := r.Intn(4); i > 0; i-- {
 		d.keys = append(d.keys, keyPool[perm[i]].decoded)
 		d.kids = append(d.kids, g.randDoc(depth-1))
@@ -1410,6 +1586,58 @@ type docSpell struct {
 	escapes float64 // probability per rune of an alternative escape form
 	zeros   bool    // append zeros to an existing fraction
 	applied []string
+	// style: "" = every rune draws its own form (probability `escapes`); otherwise ONE escape form for the whole
+	// document: "short" (the two-character escape of every character that has one, \/ included), "u-lower" / "u-upper"
+	// (\uXXXX for every character, surrogate pairs above U+FFFF), "u-mixed" (hex digits in alternating case),
+	// "u-must" (\uXXXX only for the characters that cannot stand for themselves)
+	style string
+	// order: member order of single objects (the others keep the base order)
+	order map[*dval][]int
+}
+
+var escapeStyles = []string{"short", "u-lower", "u-upper", "u-mixed", "u-must"}
+
+func u4mixed(x uint16) string {
+	h := []byte(fmt.Sprintf("%04x", x))
+	for i := range h {
+		if i%2 == 0 && h[i] >= 'a' {
+			h[i] -= 'a' - 'A'
+		}
+	}
+	return `\u` + string(h)
+}
+
+// styled writes rune c in the document-wide escape form ds.style.
+func (ds *docSpell) styled(sb *strings.Builder, c rune) {
+	must := c == '"' || c == '\\' || c < 0x20
+	u := func(x uint16) string {
+		switch ds.style {
+		case "u-upper":
+			return u4(x, true)
+		case "u-mixed":
+			return u4mixed(x)
+		}
+		return u4(x, false)
+	}
+	switch {
+	case ds.style == "short":
+		if e, ok := shortEsc[c]; ok {
+			sb.WriteString(e)
+		} else if c == '/' {
+			sb.WriteString(`\/`)
+		} else if must {
+			sb.WriteString(u4(uint16(c), false))
+		} else {
+			sb.WriteRune(c)
+		}
+	case ds.style == "u-must" && !must:
+		sb.WriteRune(c)
+	case c >= 0x10000:
+		hi, lo := utf16.EncodeRune(c)
+		sb.WriteString(u(uint16(hi)) + u(uint16(lo)))
+	default:
+		sb.WriteString(u(uint16(c)))
+	}
 }
 
 // zerosOK = false: the schema set uses an `enum` rule. Enum items compare numbers as text (known finding
@@ -1429,6 +1657,10 @@ func variantDocSpell(r *rand.Rand, zerosOK bool) *docSpell {
 		if r.Intn(2) == 0 {
 			ds.escapes = []float64{0.3, 1}[r.Intn(2)]
 			ds.applied = append(ds.applied, "escapes")
+			if r.Intn(3) == 0 {
+				ds.style = escapeStyles[r.Intn(len(escapeStyles))]
+				ds.applied[len(ds.applied)-1] = "escapes:" + ds.style
+			}
 		}
 		if r.Intn(4) == 0 && zerosOK {
 			ds.zeros = true
@@ -1462,6 +1694,10 @@ func (ds *docSpell) str(s string) string {
 	var sb strings.Builder
 	sb.WriteByte('"')
 	for _, c := range s {
+		if ds.style != "" {
+			ds.styled(&sb, c)
+			continue
+		}
 		must := c == '"' || c == '\\' || c < 0x20
 		alt := !ds.base && ds.r.Float64() < ds.escapes
 		switch {
@@ -1519,7 +1755,9 @@ func (ds *docSpell) text(d *dval) string {
 	for i := range idx {
 		idx[i] = i
 	}
-	if ds.permute {
+	if o, ok := ds.order[d]; ok {
+		idx = o
+	} else if ds.permute {
 		ds.r.Shuffle(len(idx), func(i, j int) { idx[i], idx[j] = idx[j], idx[i] })
 	}
 	var sb strings.Builder
@@ -1754,13 +1992,18 @@ func sizeBucket(n int) string {
 }
 
 func oneCase(seed int64, nVariants, nDocVariants int) (res caseResult) {
-	g := &gen{r: rand.New(rand.NewSource(seed)), features: map[string]bool{}}
+	g := &gen{r: rand.New(rand.NewSource(seed)), features: map[string]bool{}, wide: true}
 	r := g.r
 	types := typeTable{}
 	useTypes := r.Intn(4) != 0
 	if useTypes {
 		for _, nm := range typeOrder {
 			types[nm] = g.genNode(r.Intn(3), false, false)
+			if r.Intn(3) == 0 { // an object-rooted type (required / optional keys) in a third of the cases
+				for try := 0; try < 8 && (types[nm].compact || types[nm].kind != "obj" || len(types[nm].kids) < 1); try++ {
+					types[nm] = g.genNode(1+r.Intn(2), false, false)
+				}
+			}
 		}
 	}
 	g.refsOK = useTypes
@@ -1840,7 +2083,14 @@ func oneCase(seed int64, nVariants, nDocVariants int) (res caseResult) {
 
 	// ---- schema side
 	for k := 0; k < nVariants; k++ {
-		sp := variantSpell(rand.New(rand.NewSource(seed*31 + int64(k) + 1)))
+		layout := -1
+		if k == 0 { // the first variant of every schema: line-end style (by turns) x user comments, see variantSpellForced
+			layout = int(seed % 7)
+		}
+		sp := variantSpellForced(rand.New(rand.NewSource(seed*31+int64(k)+1)), layout)
+		if layout >= 0 {
+			res.stat(fmt.Sprintf("layout_comments_x_eol_%q", strings.Join(sp.eols, "|")))
+		}
 		vt := printAll(sp)
 		dropNotes, sortRules := sp.has("notes"), sp.has("rule-order")
 		key := [2]bool{dropNotes, sortRules}
@@ -1894,6 +2144,80 @@ func oneCase(seed int64, nVariants, nDocVariants int) (res caseResult) {
 
 	// ---- document side (only meaningful when the schema is accepted)
 	if raw.check == "OK" {
+		// sweep: one rewrite at a time, systematically. verdictOf validates one re-spelling of document j and
+		// reports a change of the verdict.
+		verdictOf := func(j int, vtxt, rewrite, replay string) string {
+			var x, y interface{}
+			if e1, e2 := stdjson.Unmarshal([]byte(docs[j]), &x), stdjson.Unmarshal([]byte(vtxt), &y); e1 != nil || e2 != nil || fmt.Sprintf("%#v", x) != fmt.Sprintf("%#v", y) {
+				res.diffs = append(res.diffs, vh.Diff{Component: "C13-document", Input: fmt.Sprintf("base=%q variant=%q", docs[j], vtxt), Impl: "GENERATOR BUG: re-spelling changed the JSON value", Model: ""})
+				return ""
+			}
+			got := validate(base, vtxt)
+			if got != raw.val[j] {
+				res.diffs = append(res.diffs, vh.Diff{
+					Component: "C13-document",
+					Input:     fmt.Sprintf("%s\nbase document = %q\nvariant document = %q\nrewrites=[%s] seed=%d doc=%d %s", showTexts("", base), docs[j], vtxt, rewrite, seed, j, replay),
+					Impl:      "Validate(variant document)=" + got,
+					Model:     "same verdict as the base spelling: " + raw.val[j],
+				})
+			}
+			return got
+		}
+		for j, d := range dvals {
+			strs, _, _, _, _ := docFeatures(d)
+			pr := rand.New(rand.NewSource(seed*977 + int64(j)))
+			// (a) every document-wide escape form on one sampled and one mutated document, one form (by turns) on the others
+			if strs > 0 {
+				styles := escapeStyles
+				if j != 0 && j != 2 {
+					styles = escapeStyles[j%len(escapeStyles):][:1]
+				}
+				for _, st := range styles {
+					ds := &docSpell{r: pr, escapes: 1, style: st}
+					vtxt := ds.text(d)
+					res.kase("D\x00"+base.root+"\x00"+docs[j]+"\x00"+vtxt, vtxt != docs[j])
+					if vtxt != docs[j] {
+						res.stat("doc_sweep_escapes_" + st)
+						verdictOf(j, vtxt, "escapes:"+st, "sweep")
+					}
+				}
+			}
+			// (b) member order: for up to 2 objects of the document (>= 2 members) every order of the members (<= 3
+			// members) or the reverse order, a rotation and 6 random ones; the other objects keep the base order
+			var objs []*dval
+			var walk func(x *dval)
+			walk = func(x *dval) {
+				if x.kind == 'o' && len(x.kids) >= 2 {
+					objs = append(objs, x)
+				}
+				for _, k := range x.kids {
+					walk(k)
+				}
+			}
+			walk(d)
+			pr.Shuffle(len(objs), func(a, b int) { objs[a], objs[b] = objs[b], objs[a] })
+			if len(objs) > 2 {
+				objs = objs[:2]
+			}
+			for _, o := range objs {
+				orders := memberOrders(len(o.kids), pr)
+				res.stat("doc_sweep_order_objects_members_" + sizeBucket(len(o.kids)))
+				verdicts := map[string]bool{}
+				for _, ord := range orders {
+					ds := &docSpell{base: true, r: pr, order: map[*dval][]int{o: ord}}
+					vtxt := ds.text(d)
+					res.kase("D\x00"+base.root+"\x00"+docs[j]+"\x00"+vtxt, true)
+					res.stat("doc_sweep_order_spellings")
+					verdicts[verdictOf(j, vtxt, "member-order", fmt.Sprintf("sweep order=%v", ord))] = true
+				}
+				if len(verdicts) > 1 {
+					res.stat("doc_sweep_order_verdict_depends_on_order")
+				}
+			}
+		}
+		for _, st := range g.docStats {
+			res.stat(st)
+		}
 		for j, d := range dvals {
 			strs, members, astral, needEsc, frac := docFeatures(d)
 			for k := 0; k < nDocVariants; k++ {
@@ -1937,6 +2261,49 @@ func oneCase(seed int64, nVariants, nDocVariants int) (res caseResult) {
 	return res
 }
 
+// memberOrders: the orders in which n members are written: all n! - 1 non-identity orders for n <= 3, otherwise
+// the reverse order (with the identity it shows every pair in both relative orders), the rotation by one and random
+// ones up to 8.
+func memberOrders(n int, r *rand.Rand) [][]int {
+	var out [][]int
+	if n <= 3 {
+		var rec func(cur []int, used int)
+		rec = func(cur []int, used int) {
+			if len(cur) == n {
+				ident := true
+				for i, v := range cur {
+					ident = ident && i == v
+				}
+				if !ident {
+					out = append(out, append([]int(nil), cur...))
+				}
+				return
+			}
+			for i := 0; i < n; i++ {
+				if used&(1<<i) == 0 {
+					rec(append(cur, i), used|1<<i)
+				}
+			}
+		}
+		rec(nil, 0)
+		return out
+	}
+	rev, rot := make([]int, n), make([]int, n)
+	for i := range rev {
+		rev[i], rot[i] = n-1-i, (i+1)%n
+	}
+	out = append(out, rev, rot)
+	seen := map[string]bool{fmt.Sprint(rev): true, fmt.Sprint(rot): true}
+	for len(out) < 8 {
+		p := r.Perm(n)
+		if k := fmt.Sprint(p); !seen[k] {
+			seen[k] = true
+			out = append(out, p)
+		}
+	}
+	return out
+}
+
 func checkMsg(t texts) string {
 	return vh.Recover(func() string {
 		s, e := build(t)
@@ -1969,6 +2336,10 @@ func Run(args []string) {
 	nSchemas := vh.Pick(2200, 60000)
 	nVar, nDocVar := 4, 1
 	debug := len(args) > 0 && args[0] == "debug"
+	if len(args) > 0 && args[0] == "probe" {
+		probe()
+		return
+	}
 
 	seeds := make([]int64, nSchemas)
 	for i := range seeds {
@@ -2091,4 +2462,15 @@ func GenSchemaText(seed int64) SchemaText {
 		out.End = "word"
 	}
 	return out
+}
+
+func probe() {
+	for _, m := range []string{"string", "integer", "float", "decimal", "boolean", "null", "object", "array", "email", "uri", "uuid", "date", "datetime", "enum", "mixed", "any", "@t", "@u"} {
+		t := texts{root: "{ // {additionalProperties: \"" + m + "\"}\n  \"id\": 1\n}", types: map[string]string{"t": "{\"x\": 1}", "u": "5"}}
+		fmt.Println(m, checkMsg(t), validate(t, `{"id":1,"a":"s"}`), validate(t, `{"id":1,"a":1}`), validate(t, `{"id":1,"a":{}}`), validate(t, `{"id":1,"a":[]}`), validate(t, `{"id":1,"a":null}`), validate(t, `{"id":1,"a":1.5}`), validate(t, `{"id":1,"a":true}`))
+	}
+	for _, sc := range []string{`"l\nf"`, `"c\rr"`, `"b\bf\f"`, `"\u00e9t\u00E9"`, `"\ud83d\ude00!"`, `"\uD83D\uDE00"`, `{"l\nf": 1, "\u00e9k": 2, "b\\k": 3, "t\tk": 4}`, `"l\nf" // {regex: "^l\\sf$", minLength: 3, maxLength: 3}`, `"l\nf" // {enum: ["l\nf", "x"]}`, `"\u00e9" // {const: true}`} {
+		t := texts{root: sc}
+		fmt.Println(sc, checkMsg(t), validate(t, sc), validate(t, `"l\u000af"`), validate(t, `{"l\u000Af": 1, "é\u006b": 2, "b\u005ck": 3, "t\u0009k": 4}`), validate(t, `"\u00E9"`))
+	}
 }
